@@ -120,22 +120,34 @@ Fixpoint sx_lines (f : sxf) (ntabs : nat) : list string :=
                           end) items
   end.
 
+(* xml.sax.saxutils.escape: the text of the two sections is XML character data *)
+Fixpoint xml_escape (quot : bool) (s : string) : string :=
+  match s with
+  | EmptyString => ""
+  | String c r =>
+      ((if Ascii.eqb c "&" then "&amp;"
+        else if Ascii.eqb c "<" then "&lt;"
+        else if Ascii.eqb c ">" then "&gt;"
+        else if quot && Ascii.eqb c """" then "&quot;"
+        else String c "") ++ xml_escape quot r)%string
+  end.
+
 Definition render_splot (d : splot_doc) : string :=
   str_join nl
     (["<?xml version=""1.0"" encoding=""UTF-8"" standalone=""no""?>";
-      ("<feature_model name=""" ++ sp_model_name d ++ """>")%string;
-      "<feature_tree>";
-      (":r " ++ sx_label (sx_name (sp_root d)))%string]
-     ++ sx_lines (sp_root d) 1
+      ("<feature_model name=""" ++ xml_escape true (sp_model_name d) ++ """>")%string;
+      "<feature_tree>"]
+     ++ map (xml_escape false)
+            ((":r " ++ sx_label (sx_name (sp_root d)))%string :: sx_lines (sp_root d) 1)
      ++ ["</feature_tree>"; "<constraints>"]
-     ++ (fix go (i : Z) (cls : list (list (bool * string))) : list string :=
+     ++ map (xml_escape false) ((fix go (i : Z) (cls : list (list (bool * string))) : list string :=
            match cls with
            | [] => []
            | cl :: rest =>
                (tab ++ "C" ++ z_to_string i ++ ": "
                 ++ str_join " or " (map (fun l : bool * string => if fst l then "~" ++ sx_safename (snd l) else sx_safename (snd l)) cl))%string
                :: go (i + 1)%Z rest
-           end) 1%Z (sp_clauses d)
+           end) 1%Z (sp_clauses d))
      ++ ["</constraints>"; "</feature_model>"]).
 
 Definition splot_text (m : fm) : result string :=
